@@ -2,7 +2,7 @@
    Property theorems only; proofs in CoreSched.v, Deq.v, UnixProofs.v, WinProofs.v. *)
 From Coq Require Import List NArith Bool.
 Import ListNotations.
-From TP Require Import Core CoreProofs CoreSched Path Unix Win Spec UnixProofs WinProofs.
+From TP Require Import Core CoreProofs CoreSched Path Unix Win Spec UnixProofs WinProofs Val Obs C03Slices.
 
 (* Unix: any interleaving of front and back steps pops the specification list [ucomps p]
    from the requested ends (every component exactly once and in order; None once it is
@@ -74,9 +74,56 @@ Theorem C03_conservation : forall (is_sep : N -> bool) (l : list N), exists seps
   (Forall (fun g => nosep is_sep g = true) (split is_sep l)).
 Proof. exact split_weave. Qed.
 Print Assumptions C03_conservation.
-(* C03_offsets_partial: that the byte offsets the implementation reports for each prefix / normal
-   component are those of the woven segments is not proved; it is checked on every explored case
-   by oracle_c03 (slices at the reported offsets, ascending, disjoint, junk-only gaps). *)
+(* "the prefix and every normal component are sub-slices of the input that appear in order without
+   overlap" (this was C03_offsets_partial until C03Slices.v).  For the generic core parser -- any separator
+   test, normalising or not, hence Unix and the Windows body -- and any schedule of front and back steps
+   started on a window of a larger input: every normal name handed out is the slice of the ORIGINAL input
+   at the reported offset, the windows of unconsumed input are nested, and each slice lies inside the
+   window before its step and outside the window after it (before it for a front step, behind it for a
+   back step).  Hence any two slices are disjoint, front slices ascend, back slices descend, and a front
+   slice lies before every slice handed out later.  The offsets meant are the ones the model prints
+   (C03_unix_reported_offsets, C03_windows_reported_offsets), which are compared with the implementation's
+   on every explored case; that
+   the gaps consist of separators, "." and ".." is C03_conservation above. *)
+Theorem C03_slices : forall (is_sep : N -> bool) (norm : bool), is_sep 46 = false ->
+  forall (sched : list bool) (s : pstate * list N) (a : nat) (pre post : list N), length pre = a ->
+  entries_ok (pre ++ snd s ++ post) (a, length (snd s)) (slices is_sep norm s a sched).
+Proof. exact slices_ok. Qed.
+Theorem C03_slices_ordered : forall (p : list N) (es : list entry) (w : nat * nat), entries_ok p w es ->
+  forall (i j : nat) (ei ej : entry), (i < j)%nat -> nth_error es i = Some ei -> nth_error es j = Some ej ->
+  match snd (fst ei), snd (fst ej) with
+  | Some (oi, ni), Some (oj, nj) => if fst (fst ei) then (oj + length nj <= oi)%nat else (oi + length ni <= oj)%nat
+  | _, _ => True
+  end.
+Proof. exact slices_ordered. Qed.
+Theorem C03_unix_slices : forall (p : list N) (sched : list bool),
+  entries_ok p (0%nat, length p) (slices usep true (u_init p) 0 sched).
+Proof. exact u_slices_ok. Qed.
+Theorem C03_unix_reported_offsets : forall (sched : list bool) (s : ustate) (a : nat),
+  map step_off (obs_sched UE false s a sched) = map entry_off (slices usep true s a sched).
+Proof. exact obs_sched_offsets. Qed.
+Print Assumptions C03_slices.
+Print Assumptions C03_slices_ordered.
+Print Assumptions C03_unix_slices.
+Print Assumptions C03_unix_reported_offsets.
+(* the same for the Windows iterator: the prefix is a slice as well (at the start of the window), the body
+   is the generic core over what follows it *)
+Theorem C03_windows_slices : forall (l : list N) (sched : list bool),
+  entries_ok l (0%nat, length l) (wslices (w_init l) 0 sched).
+Proof. exact w_slices_ok. Qed.
+Theorem C03_windows_reported_offsets : forall (sched : list bool) (s : wstate) (a : nat),
+  map step_off (obs_sched WE false s a sched) = map entry_off (wslices s a sched).
+Proof. exact obs_sched_offsets_w. Qed.
+Print Assumptions C03_windows_slices.
+Print Assumptions C03_windows_reported_offsets.
+Example C03_windows_slices_example :
+  map entry_off (wslices (w_init [67;58;92;97;47;46;47;98;92]) 0 [true; false; false; true; false])
+  = [VSome (vnat 7); VSome (vnat 0); VN; VSome (vnat 3); VN].
+Proof. vm_compute. reflexivity. Qed.
+Example C03_slices_example :
+  map entry_off (slices usep true (u_init [47;97;47;47;98;47;46;47;99]) 0 [false; true; false; false])
+  = [VN; VSome (vnat 8); VSome (vnat 1); VSome (vnat 4)].
+Proof. vm_compute. reflexivity. Qed.
 
 Example C03_example_windows :
   map fst (sched_run w_nextf w_nextb (w_init [67;58;92;97;47;46;47;98;92]) [true; false; false; true; false])
